@@ -12,6 +12,17 @@ CLAIMED = {
         "note": "Trusted: Coq kernel + vm_compute; hand-written model (tie checked by sampling, bounded by the generator); "
                 "Python harness; ASCII identifiers only.",
     },
+    "C20": {
+        "design_ref": "DESIGN.md section 5 / C20",
+        "technique": "Coq proof over a hand-written Gallina model of resources.py (exact rational sizes, explicit aliasing state) + per-run differential correspondence (vm_compute)",
+        "text": "Coq theorems for all Resources values: combine_max is an upper bound in cpus/gpus/memory-by-size/time-by-duration and leaves "
+                "operands untouched, with_defaults keeps set fields, no combinator mutates or aliases its operands, from_dict(dict r)=r, "
+                "the constructor accepts exactly the valid combinations and strings (scanners proved equivalent to the regex grammars); "
+                "to_slurm_options mentions every set quantity except the recorded finding gpus=0 (refuted + guarded partial theorem). "
+                "Model tied to /repo per run by differential execution; spec_ok (Coq) judges the implementation's observations.",
+        "note": "Trusted: Coq kernel + vm_compute; hand-written model; harness. Float rounding of _convert_to_gb not modelled (memory strings "
+                "<= 6 significant digits); non-ASCII digits and callable resources out of scope.",
+    },
 }
 
 NOT_YET = "not claimed yet: model/proofs for this property are not built in this revision (see DESIGN.md section 9 build order)"
